@@ -5,6 +5,7 @@
 (* dirPw[u]   : the password the directory currently holds for u                           *)
 (* srv[i]     : "up" (answers: accepts or rejects), "err" (answers with a non-verdict error), *)
 (*              "down" (no answer)                                                          *)
+(*              "refused" (the connection itself fails: nothing listens / reset)             *)
 (* row[u]     : the cached record in the primary store: NoRow or [pw, expired, intact]       *)
 (*              pw = the password whose hash it holds, intact = carries a valid keymaster     *)
 (*              signature for u and is unmodified                                             *)
@@ -103,7 +104,7 @@ Init == /\ dirPw \in [Users -> Passwords] /\ srv = [i \in Servers |-> "up"] /\ r
         /\ confirmed = {} /\ last = [op |-> "init"] /\ since = [u \in Users |-> 0]
         /\ mirror = [u \in Users |-> NoRow] /\ dbOut = FALSE /\ mconf = {}
 Next == \/ \E u \in Users, pw \in Passwords : Login(u, pw) \/ ChangePw(u, pw)
-        \/ \E i \in Servers, s \in {"up", "err", "down"} : SetServer(i, s)
+        \/ \E i \in Servers, s \in {"up", "err", "down", "refused"} : SetServer(i, s)
         \/ \E u \in Users : Expire(u) \/ HalfLife(u)
         \/ \E u \in Users, h \in TamperKinds : Tamper(u, h)
         \/ Sync \/ DbOutage \/ DbRecover
